@@ -78,8 +78,9 @@ P = {
          'nothing. Correspondence: random histories without force/failure/deletion on the real code vs the model (values, run-log '
          'delta with order, in-memory/stored sets per operation) and an oracle on the real run log (no location twice, nothing run by '
          'construction/inspection, nothing available run, only the used upstream closure).',
-    note='the global statement "at most once per location over a whole history" is decided by the oracle + correspondence; the theorems are the '
-         'per-request laws it follows from (the history-level induction is not yet a single theorem); restarts simulated in-process here',
+    note='run_at_most_once: over any history of value requests and inspections from an empty store no location (no in-memory object) is computed '
+         'twice, under stratification (inputs precede dependants, locations layered likewise); restarts are simulated in-process in this check '
+         '(real interpreter restarts in C01/C05); fuel > number of objects',
     technique='Lean 4 proof (one-step laws + frame induction) + differential correspondence',
     ref='§4 C04'),
  'C07': dict(
